@@ -49,6 +49,82 @@ def masked_vc(N, T, F, batch_first):
               assumptions=["boolean-mask selection + masked_scatter = stable row-major compaction (vf/pyvc/ctensor.py, differentially tested)"])
 
 
+def shift_vc(training):
+    """P rung: random_shift for a generic batch element of SYMBOLIC length and symbolic proportions: each side gets a non-negative
+    whole number of elements below proportion * length; the reported length is the old one plus both; the padding itself is
+    delegated to pad_variable with exactly (input, lengths, amounts, mode, value); evaluation mode is the identity."""
+    import pydrobert.torch._img as IMG
+
+    LEN = z3.Int("length")
+    PL, PR, U0, U1, VAL = z3.Reals("prop_left prop_right u_left u_right value")
+    name = "random_shift[symbolic length and proportions; training=%s]" % training
+
+    class Input:
+        def __vc_getattr__(self, I, nm):
+            me = self
+
+            class M_:
+                def __vc_call__(s, I2, a, k):
+                    return 3 if nm == "dim" else (1 if (nm == "size" and a and a[0] == 0) else ip.Opaque("input.%s" % nm))
+
+            if nm in ("dim", "size"):
+                return M_()
+            if nm == "shape":
+                return (1, 7, 2)
+            raise ip.Unsupported("input.%s" % nm)
+
+    def thunk(I):
+        x = Input()
+        lens = ct.CT(ct.obj_array(LEN, (1,)), "long")
+        calls = []
+
+        def rand_like(I2, t, **k):
+            a = ct.obj_array(0, t.shape)
+            a[0, 0], a[1, 0] = U0, U1
+            return ct.CT(a, "float")
+
+        def pad_variable(I2, a, k):
+            calls.append(a)
+            return ("padded", a[0])
+
+        I.stubs["torch.rand_like"] = rand_like
+        I.contracts["pydrobert.torch._pad.pad_variable"] = pad_variable
+        out = I.call(IMG.random_shift, [x, lens, (PL, PR), "constant", VAL, training], {})
+        I.ex.ghost.update(x=x, lens=lens, calls=calls)
+        return out
+
+    def post(p):
+        if not api.returns(p) or not isinstance(p.value, tuple) or len(p.value) != 2:
+            return False
+        out, out_lens = p.value
+        g = p.ghost
+        if not training:
+            return [("evaluation_mode_is_the_identity", z3.BoolVal(out is g["x"] and out_lens is g["lens"] and not g["calls"]))]
+        if len(g["calls"]) != 1:
+            return [("pads_through_pad_variable_once", z3.BoolVal(False))]
+        a = g["calls"][0]
+        pad = a[2]
+        ok_args = a[0] is g["x"] and a[1] is g["lens"] and isinstance(pad, ct.CT) and tuple(pad.shape) == (2, 1) and a[3] == "constant" and a[4] is VAL and isinstance(out, tuple) and out[1] is g["x"]
+        if not ok_args:
+            return [("pad_variable_receives_input_lengths_amounts_mode_value", z3.BoolVal(False))]
+        l, r = ip.to_z3(pad.a[0, 0]), ip.to_z3(pad.a[1, 0])
+        Lr = z3.ToReal(LEN)
+        return [("pad_variable_receives_input_lengths_amounts_mode_value", z3.BoolVal(True)),
+                ("left_amount_is_a_whole_number_in_range", z3.And(z3.is_int(l), l >= 0, z3.ToReal(l) <= PL * Lr, z3.Implies(PL * Lr > 0, z3.ToReal(l) < PL * Lr))),
+                ("right_amount_is_a_whole_number_in_range", z3.And(z3.is_int(r), r >= 0, z3.ToReal(r) <= PR * Lr, z3.Implies(PR * Lr > 0, z3.ToReal(r) < PR * Lr))),
+                ("reported_length", ip.to_z3(out_lens.a[0]) == LEN + l + r)]
+
+    return VC("C09.P.shift_amounts", name, "pydrobert.torch._img", "random_shift", thunk, pre=[LEN >= 0, PL >= 0, PR >= 0, U0 >= 0, U0 < 1, U1 >= 0, U1 < 1],
+              posts=[("shift_bounds", post)], inputs={"length": LEN, "prop_left": PL, "prop_right": PR, "u_left": U0, "u_right": U1},
+              twins=[("amounts_may_reach_the_proportion", lambda p: (ip.to_z3(p.ghost["calls"][0][2].a[0, 0]) >= 1) if api.returns(p) and p.ghost["calls"] else None)] if training else [],
+              assumptions=["torch.rand_like yields values in [0, 1); one generic batch element (the amounts are computed element-wise); pad_variable is replaced by a recording contract (its own behaviour: C09.pad.* bounded clauses)",
+                           "float arithmetic treated as real arithmetic (lengths * proportion exact)"])
+
+
+def p_vcs(ctx):
+    return [shift_vc(True), shift_vc(False)]
+
+
 def vcs(ctx):
     shapes = [(1, 2, 0), (2, 2, 0), (1, 3, 2)] if ctx.quick else [(1, 1, 0), (1, 2, 0), (2, 2, 0), (2, 3, 0), (1, 3, 2), (2, 2, 2)]
     return [masked_vc(N, T, F, bf) for (N, T, F) in shapes for bf in (False, True)]
